@@ -13,6 +13,8 @@ var allEmitOpts = []string{"emit_json_tags", "emit_db_tags", "emit_prepared_quer
 
 // --- renderers of one logical configuration in four front ends
 type confSpec struct {
+	outDir   string // output directory; the package name defaults to its last element when omitName
+	omitName bool
 	p          Project
 	listPaths  bool
 	pkgOverrides, globalOverrides []string
@@ -48,8 +50,12 @@ func (c confSpec) v1JSON() string {
 	if len(c.p.Rename) > 0 {
 		top += `,"rename":` + jsonStr(c.p.Rename)
 	}
-	return fmt.Sprintf(`{"version":"1","packages":[{"name":"db","path":"db","engine":%q,"schema":%s,"queries":%s,%s%s}]%s}`,
-		c.p.Engine, c.paths("schema.sql"), c.paths("query.sql"), c.optsJSON(), po, top)
+	nm := `"name":"db",`
+	if c.omitName {
+		nm = ""
+	}
+	return fmt.Sprintf(`{"version":"1","packages":[{%s"path":%q,"engine":%q,"schema":%s,"queries":%s,%s%s}]%s}`,
+		nm, c.outDir, c.p.Engine, c.paths("schema.sql"), c.paths("query.sql"), c.optsJSON(), po, top)
 }
 
 func (c confSpec) v2JSON() string {
@@ -68,8 +74,12 @@ func (c confSpec) v2JSON() string {
 	if len(g) > 0 {
 		top = `,"overrides":{"go":{` + strings.Join(g, ",") + `}}`
 	}
-	return fmt.Sprintf(`{"version":"2","sql":[{"engine":%q,"schema":%s,"queries":%s,"gen":{"go":{"package":"db","out":"db",%s%s}}}]%s}`,
-		c.p.Engine, c.paths("schema.sql"), c.paths("query.sql"), c.optsJSON(), po, top)
+	nm := `"package":"db",`
+	if c.omitName {
+		nm = ""
+	}
+	return fmt.Sprintf(`{"version":"2","sql":[{"engine":%q,"schema":%s,"queries":%s,"gen":{"go":{%s"out":%q,%s%s}}}]%s}`,
+		c.p.Engine, c.paths("schema.sql"), c.paths("query.sql"), nm, c.outDir, c.optsJSON(), po, top)
 }
 
 // jsonToYAML: a small JSON→YAML block-style renderer for the shapes used here
@@ -150,7 +160,12 @@ func runC16(r *Rng, n int, tier string) {
 		if r.Chance(25) {
 			engine = "mysql"
 		}
-		c := confSpec{p: genProject(r, engine), listPaths: r.Bool()}
+		c := confSpec{p: genProject(r, engine), listPaths: r.Bool(), outDir: "db"}
+		if r.Chance(40) {
+			// the package name is left to its default: the last element of the output directory, verbatim
+			c.omitName = true
+			c.outDir = r.Pick([]string{"db", "internal/StoreDB", "DB", "gen/my_db", "Out", "pkg/v2db"})
+		}
 		c.p.Overrides = nil
 		if r.Chance(50) {
 			c.globalOverrides = append(c.globalOverrides, `{"db_type":"text","go_type":"github.com/example/custom.Text"}`)
@@ -227,12 +242,12 @@ func runC16(r *Rng, n int, tier string) {
 							msg = opt + " changes more than struct tags: " + d
 						}
 					case "emit_interface":
-						x, y := copyWithout(ref.Files, "db/querier.go"), copyWithout(got.Files, "db/querier.go")
+						x, y := copyWithout(ref.Files, c.outDir+"/querier.go"), copyWithout(got.Files, c.outDir+"/querier.go")
 						if d := diffFiles(x, y); d != "" && msg == "" {
 							msg = opt + " changes more than the presence of querier.go: " + d
 						}
 					case "emit_prepared_queries":
-						if ref.Files["db/models.go"] != got.Files["db/models.go"] && msg == "" {
+						if ref.Files[c.outDir+"/models.go"] != got.Files[c.outDir+"/models.go"] && msg == "" {
 							msg = opt + " changes models.go"
 						}
 						if jsonStr(a.Structs) != jsonStr(b.Structs) && msg == "" {
